@@ -320,6 +320,11 @@ impl Node {
         for item in self.iter_children() {
             if let Some(node) = item.as_node() {
                 if let Some(include) = typed::Include::cast(item) {
+                    // a malformed statement may be missing its path; that has
+                    // already been reported as a syntax error, so just skip it
+                    if include.find_token(Kind::Path).is_none() {
+                        continue;
+                    }
                     collect.push(IncludeStatement {
                         stmt: include,
                         scope: self.kind,
@@ -644,5 +649,14 @@ mod tests {
             .map(Token::as_str)
             .collect::<String>();
         crate::assert_eq_str!(SAMPLE_FEA, reconstruct);
+    }
+
+    // an include statement with no path is a syntax error, not a panic
+    #[test]
+    fn include_missing_path() {
+        for fea in ["include", "include;", "include(", "include();"] {
+            let (_ast, errs) = crate::parse::parse_string(fea);
+            assert!(errs.has_errors(), "'{fea}'");
+        }
     }
 }
